@@ -9,10 +9,11 @@ import io
 import itertools
 import multiprocessing as mp
 import random
+import re
 import sys
 from typing import Any, Optional
 
-from .. import common
+from .. import common, progs
 
 FRAGS = ['a', '\n', 'a\n', '\na', 'a\nb', '']
 KEYS = [1, 2, None]
@@ -189,11 +190,39 @@ def check_real(r: dict, expected: dict) -> list[str]:
     return msgs
 
 
+POOL = re.compile(r'(asyncio|ThreadPoolExecutor-\d+)_\d+')      # names of executor threads (as in c04)
+
+
+def pool_oracle(t: dict, trace_threads: bool) -> list[str]:
+    """C13's statement on a traced run of a `progs.pool_reuse` program.  Ground truth: the writes that reached the real stdout, keyed
+    by the writing thread/task.  With thread tracing, every writer's text (up to its last newline) is what was reported for one
+    trace.  Without it, the executor threads are not traced: what they wrote is reported under no trace, and the traced writers
+    (main thread, its tasks) still get exactly their own text."""
+    from . import _trace
+    if trace_threads:
+        return _trace.captured_oracle(t)
+    msgs = []
+    untraced = [(k, s) for k, s in t['writes'] if POOL.fullmatch(k)]
+    reported = [(e['trace_no'], e['text']) for e in t['events'] if e['_type'] == 'OnWriteStdout']
+    for k, s in untraced:
+        frag = s.strip('\n ')
+        if len(frag) < 3:        # (a bare newline or separator says nothing about who wrote it)
+            continue
+        hit = next(((tn, x) for tn, x in reported if frag in x), None)
+        if hit:
+            msgs.append(f'thread tracing is off, yet text written by the untraced executor thread {k} ({frag!r}) was reported for trace {hit[0]}: {hit[1]!r}')
+            break
+    msgs += _trace.captured_oracle(dict(t, writes=[(k, s) for k, s in t['writes'] if not POOL.fullmatch(k)]))
+    return msgs
+
+
 def run(chk: common.Check) -> None:
     chk.cov.rule = ('write sequences (key|None, text): all sequences up to a fixed length over 6 text fragments × 3 keys, then seeded '
                     'random unicode/long ones, executed on the real peek_stdout_by_key and on the Lean model (replies compared '
                     'line by line); plus generated scripts printing from main thread/threads/asyncio tasks through the real child, and 3–6 threads '
-                    'writing partial lines at the same time under a 1 µs thread-switch interval through the real trace machinery in-process. '
+                    'writing partial lines at the same time under a 1 µs thread-switch interval through the real trace machinery in-process; and asyncio '
+                    'scripts that hand jobs to the default executor one after the other (to_thread, run_in_executor, call_soon, call_soon_threadsafe, '
+                    'copy_context().run; the pooled thread is reused), task, callbacks and worker writing full and partial lines, with and without thread tracing. '
                     'Non-trivial: at least one piece was reported; distinct = distinct write sequence.')
     chk.assumptions += ['which trace number is current at a write (the key) is model D1 / property C06',
                         '“writes to standard output” = sys.stdout.write and what is built on it (print, writelines)']
@@ -291,6 +320,14 @@ def run(chk: common.Check) -> None:
     for pol in ({'kind': 'all', 'command': 'next'}, {'kind': 'all', 'command': 'continue'}):
         sspecs.append({'source': odd, 'policy': pol, 'trace_threads': True, 'trace_modules': False, 'kind': 'odd-separators', 'timeout': 30,
                        'want_reference': False, 'want_recorder': False, 'switchinterval': None})
+    # jobs handed to the default executor one after the other (to_thread / run_in_executor / call_soon / copy_context().run): the pooled
+    # worker thread is reused, and runs in a copy of the calling task's context; task, callbacks and worker write full and partial lines
+    for i in range(6 if chk.tier == 'quick' else 48):
+        src, info = progs.pool_reuse(random.Random(chk.rng.randrange(1 << 30)), ntasks=chk.rng.choice([1, 2, 3]), ncalls=chk.rng.choice([2, 4, 5]))
+        pol = [{'kind': 'all', 'command': 'continue'}, {'kind': 'all', 'command': 'next'}, {'kind': 'all', 'command': 'step'}][i % 3]
+        for tt in ((True, False) if i % 2 == 0 else (True,)):
+            sspecs.append({'source': src, 'policy': pol, 'trace_threads': tt, 'trace_modules': False, 'kind': 'pool-reuse', 'forms': info['forms'],
+                           'timeout': 90, 'want_reference': False, 'want_recorder': False, 'switchinterval': None})
     for r in _trace.run_specs(sspecs, chunk=4):
         sp = r['spec']
         if 'harness_error' in r:
@@ -298,12 +335,24 @@ def run(chk: common.Check) -> None:
                 oracle_fail.append(({'script': sp['source'], 'policy': sp['policy']}, [f'the traced run did not complete: {r["harness_error"][:200]}'], None))
             continue
         chk.cov.case(('stress', sp['source'], repr(sp['policy'])))
-        chk.cov.count('kinds', 'threads-writing-concurrently' if sp['kind'] == 'stress' else sp['kind'])
-        msgs = _trace.captured_oracle(r['traced'])
+        chk.cov.count('kinds', 'threads-writing-concurrently' if sp['kind'] == 'stress' else
+                      'pool-reuse-threads-untraced' if sp['kind'] == 'pool-reuse' and not sp['trace_threads'] else sp['kind'])
+        if sp['kind'] == 'pool-reuse':
+            for f in sp['forms']:
+                chk.cov.count('pool_call_forms', f)
+            names = {k for k, _ in r['traced']['writes'] if POOL.fullmatch(k)}
+            chk.cov.count('pool_threads_used', len(names))
+            msgs = pool_oracle(r['traced'], sp['trace_threads'])
+            if r['traced'].get('fmt_exc'):
+                msgs.append(f'the script raised: {r["traced"]["fmt_exc"][-300:]}')
+            if msgs:
+                msgs[0] = f'executor jobs run one after the other (trace_threads={sp["trace_threads"]}): ' + msgs[0]
+        else:
+            msgs = _trace.captured_oracle(r['traced'])
         if r['traced'].get('error'):
             msgs.append(f'spawned.run raised: {r["traced"]["error"]}')
         if msgs:
-            oracle_fail.append(({'script': sp['source'], 'policy': sp['policy'], 'switchinterval': sp.get('switchinterval')}, msgs, None))
+            oracle_fail.append(({'script': sp['source'], 'policy': sp['policy'], 'trace_threads': sp['trace_threads'], 'switchinterval': sp.get('switchinterval')}, msgs, None))
 
     for ws, msgs, out in oracle_fail[:5]:
         chk.violation(f'C13 oracle: {msgs[0]}', {'input': ws, 'oracle_messages': msgs, 'implementation': out})
